@@ -12,8 +12,11 @@ inductive PK where
   | builtin
   deriving Repr
 
-/-- the receiver's `tag` property as the callee prints it -/
-def tagOf (o : Obj PK) : String := (o.name.drop 1).toString
+/-- the receiver's `tag` property as the callee prints it (found along the chain like any property) -/
+def tagOf (o : Obj PK) : String :=
+  match findProp o "tag" with
+  | some (.val k) => toString k
+  | _ => "?"
 
 def parseProps (idx : Nat) (s : String) : List (String × PK) :=
   if s = "-" then [] else
@@ -47,9 +50,27 @@ def buildObjs (top : Obj PK) (defs : List String) : List (Obj PK) :=
         | "bro", some p => match (acc.getD p top).proto with
           | some pp => .node nm ps pp
           | none => .node nm ps top
+        -- bear / bro with an earlier object as source: the child has the source's own pairs
+        | "bearv", some p => .node nm ((acc.getD (props.toNat?.getD 0) top).pairs) (acc.getD p top)
+        | "brov", some p => match (acc.getD p top).proto with
+          | some pp => .node nm ((acc.getD (props.toNat?.getD 0) top).pairs) pp
+          | none => .node nm ((acc.getD (props.toNat?.getD 0) top).pairs) top
         | _, _ => .node nm ps top
       acc ++ [o]
     | _ => acc) []
+
+def pkEq : PK → PK → Bool
+  | .val a, .val b => a == b
+  | .fn a, .fn b => a == b
+  | .meth a, .meth b => a == b
+  | .miss a, .miss b => a == b
+  | .builtin, .builtin => true
+  | _, _ => false
+
+/-- `Obj#==` (BaseObj#== on two objects): the same own pairs, whatever the prototypes -/
+def objEq (a b : Obj PK) : Bool :=
+  a.pairs.length == b.pairs.length &&
+  a.pairs.all (fun p => match b.pairs.lookup p.1 with | some q => pkEq p.2 q | none => false)
 
 def showArg (a : Option Int) : String := match a with | some v => toString v | none => "nil"
 
@@ -89,7 +110,7 @@ def handle (args : List String) : String × String :=
         | some w => w.name
         | none => "nil"
       | ["anc", i] => "[" ++ joinWith "," ((ancestors (get i)).map (·.name)) ++ "]"
-      | ["kind", i, j] => toString ((chain (get i)).any (fun x => x.name == (get j).name))
+      | ["kind", i, j] => toString ((chain (get i)).any (fun x => x.name == (get j).name || objEq x (get j)))
       | ["keys", i] => "[" ++ joinWith "," (keys (get i)) ++ "]"
       | ["proto", i] => match (get i).proto with | some p => p.name | none => "nil"
       | _ => "bad-op"
